@@ -887,6 +887,10 @@ class Gen:
             b = self.loop_var(s2, 'E')
             inner = {'op': 'loop', 'form': 'range', 'a': A.num('1'), 'b': A.num(str(self.rng.randint(1, 3))), 'var': b}
             inner_body.append({'op': 'print', 'nl': False, 'e': ('var', b)})
+        if self.chance(0.35):
+            # ... or only the inner loop is left, by `break`, and the routine goes on and returns at its end: what the
+            # abandoned loop had not consumed must be gone then, too
+            leave = {'op': 'break'}
         inner_body.append({'op': 'if', 'e': ('bin', '>=', ('var', ctr), A.num(str(limit))), 'then': [leave], 'else': None})
         inner['body'] = inner_body
         outer = {'op': 'loop', 'form': 'iter', 'sources': src1, 'lvar': a, 'wk': 'none',
@@ -907,7 +911,7 @@ class Gen:
         call = ('call', name, [])
         cbody = [{'op': 'action', 'act': self.pick(['set', 'on']), 'ops': [dict(target)]}]
         if ret == 'num' and self.chance(0.6):
-            cbody.append({'op': 'print', 'nl': False, 'e': call})
+            cbody.append({'op': 'print', 'nl': False, 'e': call if self.chance(0.5) else ('bin', '+', A.num('100'), call)})
         else:
             cbody.append({'op': 'callstmt', 'e': call})
         if caller['wk'] == 'range':
